@@ -185,7 +185,7 @@ def main(argv):
         if hasattr(mod, "extract"):
             mod.extract(ctx)
         lean = C.lean_check(pid, thorough=ctx.thorough, own_tables=hasattr(mod, "extract"))
-        tie = C.tie_check(pid)
+        tie = C.tie_check(pid, thorough=ctx.thorough)
         lost = {k: v for k, v in tie.items() if v != "proved"}
         if lost:
             # the regenerated kernel is no longer identified with the model kernel: the correspondence check is then the
